@@ -18,7 +18,7 @@ WT=/tmp/confirm-wt; export CARGO_NET_OFFLINE=true
 if [ ! -d $WT ]; then git -C /repo worktree add --detach $WT HEAD >/dev/null 2>&1; fi
 git -C $WT checkout -q --detach $(git -C /repo rev-parse HEAD); git -C $WT checkout -q -- . ; git -C $WT clean -fdq
 export CARGO_TARGET_DIR=/tmp/confirm-target
-DEMO_PATH=$(head -1 $OUT/demo_path.txt | tr -d ' \r')
+DEMO_PATH=$(grep -oE 'crates/[A-Za-z0-9_./-]+\.rs' $OUT/demo_path.txt | head -1)
 DEMO_TEST=$(basename $DEMO_PATH .rs)
 DEMO_CRATE=$(echo $DEMO_PATH | sed -E 's#crates/([^/]+)/.*#\1#')
 echo "demo: $DEMO_PATH crate=$DEMO_CRATE test=$DEMO_TEST" >> $EV
